@@ -349,6 +349,7 @@ class TieCheck:
     """
     pid = area = props = harness = None
     coq_targets = None      # None: build the whole area; else extra .vo targets besides the props files
+    extra_props = []        # [(area, props_file)]: property theorem files living in another area
     shards = NCPU
     race = False
     extra_trust = []
@@ -407,11 +408,23 @@ class TieCheck:
                 ob["ok"] = False
                 ob["log"] += o1["log"]
                 problems.append(("proof-obligation", "coqc %s failed:\n%s" % (pf, o1["log"])))
+        for xa, xpf in self.extra_props:
+            okx, lgx = coq_build(xa, targets=[xpf[:-2] + ".vo"])
+            if not okx:
+                problems.append(("coq-build", lgx[-3000:]))
+            o1 = props_obligations(xa, xpf)
+            ob["theorems"] += o1["theorems"]
+            ob["discharged"] += o1["discharged"]
+            ob["axioms"].update(o1["axioms"])
+            ob["cmd"] += " ; " + o1["cmd"]
+            if not o1["ok"]:
+                ob["ok"] = False
+                problems.append(("proof-obligation", "coqc %s/%s failed:\n%s" % (xa, xpf, o1["log"])))
         axioms = sorted({a for l in ob["axioms"].values() for a in l})
         bad_ax = [a for a in axioms if a.split(".")[-1] not in ALLOWED_AXIOMS and a not in ALLOWED_AXIOMS]
         if bad_ax:
             problems.append(("axioms", "non-standard assumptions: %s" % bad_ax))
-        hy = hygiene(closure_areas(self.area))
+        hy = hygiene(sorted(set(closure_areas(self.area) + [a for xa, _ in self.extra_props for a in closure_areas(xa)])))
         if hy:
             problems.append(("hygiene", "\n".join(hy)))
         checker = ["make -C coq/%s (full .vo)" % self.area, ob["cmd"]]
